@@ -230,9 +230,9 @@ def expectedReadBufferSkel : List String := [
   "data_in, v0, v1 = self._handle_amqp_frame(data_in)",
   "if v1 is None", "break", "end",
   "self.heartbeat.register_read()",
-  "if v0 == 0", "self._channel0.on_frame(v1)",
-  "else", "if v0 in self._channels", "self._channels[v0].on_frame(v1)", "end",
-  "end",
+  "if v0 == 0", "self._channel0.on_frame(v1)", "continue", "end",
+  "v2 = self._channels.get(v0)",
+  "if v2 is not None", "v2.on_frame(v1)", "end",
   "end",
   "return data_in"]
 
